@@ -56,7 +56,11 @@ CHECKS = {
  "C18": ("fault_enumeration", "enumeration of every cut offset x fault kind with a differential (fault-free in-process) oracle and an observer connection",
          "for generated pipelines every byte offset is combined with 7 fault kinds; store content must equal that of exactly the complete requests (orderly) or of some prefix of them (resets), the observer connection follows the reference model, and the server keeps serving.",
          "differential oracle uses the same code without a socket; CAS not compared", "6/C18"),
+ "C20": ("exploration", "differential testing across the enumerated configuration product on the real binary",
+         "every configuration of the listed product runs as a real memcrsd process and is driven with the same generated programs; response streams must be byte-identical to the reference configuration; per-configuration probes check the item limit, the connection limit (12 simultaneous connections) and real-time expiry.",
+         "binary built with cargo's dev profile from /repo; product enumerated for the listed values only; wall-clock sleeps in the TTL probe", "6/C20"),
 }
+
 
 
 NOT_YET = {}
@@ -81,7 +85,7 @@ def main():
     na = [{"property_id": c, "reason": NOT_YET.get(c, "check not built yet in this session (work in progress; see DESIGN.md section 6 for the planned generator and oracle)")} for c in ALL if c not in CHECKS]
     m = {
         "version": 1,
-        "setup_cmd": "cd /verif/harness && CARGO_NET_OFFLINE=true cargo build --release --offline",
+        "setup_cmd": "cd /verif/harness && CARGO_NET_OFFLINE=true cargo build --release --offline && CARGO_NET_OFFLINE=true cargo build --offline --bin memcrsd --manifest-path /repo/Cargo.toml --target-dir /verif/harness/target/memcrsd-build",
         "hooks": {
             "guard": "cargo feature `verif` of the memcrs crate",
             "enable": "the harness depends on memcrs by path with features=[\"verif\"]",
